@@ -16,6 +16,9 @@ func (w *World) LemmaObligations(id string) (obs []*Obligation, err error) {
 		}
 		name := "lemma." + lm.Name
 		vc := NewFuncVC(w, name)
+		for _, r := range lm.Reveal {
+			vc.reveal[r] = true
+		}
 		root := vc.newPC("entry")
 		vc.declare("next@0", "Int")
 		heap := &HeapState{vers: map[string]string{}, next: "next@0"}
@@ -51,6 +54,44 @@ func (w *World) LemmaObligations(id string) (obs []*Obligation, err error) {
 			pc = npc
 		}
 		vc.obs = obs
+	}
+	// monotonicity of opaque predicates in the allocation counter (used as an axiom wherever they stay opaque)
+	var names []string
+	for n := range w.Specs.Funs {
+		names = append(names, n)
+	}
+	sortStrings(names)
+	for _, n := range names {
+		fd := w.Specs.Funs[n]
+		if !fd.Opaque || fd.Body == nil {
+			continue
+		}
+		fctx := w.ctxFor(fd.PkgPath, fd.File)
+		rs := w.opaqueInfo(fd, fctx)
+		if !rs.next {
+			continue
+		}
+		name := "lemma.mono." + fd.Name
+		vc := NewFuncVC(w, name)
+		vc.revealAll = true
+		root := vc.newPC("entry")
+		vc.declare("n!1", "Int")
+		vc.declare("n!2", "Int")
+		vars := map[string]binding{}
+		for _, p := range fd.Params {
+			ty := w.resolveType(p.Type, fctx)
+			c := "l!" + sanitize(p.Name)
+			vc.declare(c, ty.Sort(w.S))
+			vars[p.Name] = binding{c, ty}
+		}
+		h1 := &HeapState{vers: map[string]string{}, next: "n!1"}
+		h2 := &HeapState{vers: map[string]string{}, next: "n!2"}
+		b1, _ := (&Env{w: w, vc: vc, cur: h1, old: h1, vars: vars, ctx: fctx}).Eval(fd.Body)
+		b2, _ := (&Env{w: w, vc: vc, cur: h2, old: h2, vars: vars, ctx: fctx}).Eval(fd.Body)
+		vc.assume(root, "(<= n!1 n!2)")
+		vc.assume(root, b1)
+		ob := &Obligation{Name: name, Kind: "lemma", Tags: []string{id}, PC: root, Goal: b2, Pos: fd.File, Src: "monotone in the allocation counter", Func: name, vc: vc}
+		obs = append(obs, ob)
 	}
 	return obs, nil
 }
